@@ -87,7 +87,56 @@ def evidence_C08(agg, tier):
     }
 
 
+def plan_C20(tier):
+    n = scale(tier, 2400, 400000)
+    return {
+        "backends": ["c", "py"],
+        "subs": [
+            {"name": "schedules", "cfg": {}, "runs": n, "batch": 25},
+        ],
+        "budget_s": scale(tier, 50, 3300),
+    }
+
+
+def evidence_C20(agg, tier):
+    c = agg.ctr
+    return {
+        "rule": ("one evaluation = one simulated run: 2-4 real threads, each a seeded program of 1-10 operations over a shared pool of 2-6 URL "
+                 "objects (parser-built with pre-filled memo, and re-derived/unpickled with empty memo) and shared strings, optionally one "
+                 "operator thread issuing cache_clear()/cache_configure(); a baton scheduler pre-empts at sys.monitoring INSTRUCTION or LINE "
+                 "events of yarl's own code under a seeded policy (random walk, store-biased, PCT with 1-3 priority change points). "
+                 "distinct_nontrivial = distinct schedule digests (hash of the (thread, own-step, target, code, offset) switch sequence) among "
+                 "runs with at least one switch taken while another thread was parked in the middle of an operation, or inside "
+                 "cache_clear/cache_configure."),
+        "fault_kinds_fired": {
+            "context_switch": c.get("probe_switches", 0),
+            "switch_while_other_thread_mid_operation": c.get("probe_switch_while_other_thread_mid_operation", 0),
+            "operator_thread_runs": c.get("probe_runs_with_operator_thread", 0),
+            "thread_stalled_across_whole_program": c.get("probe_thread_stalled_mid_op_across_another_threads_whole_program", 0),
+        },
+        "probes": {k[len("probe_"):]: v for k, v in sorted(c.items()) if k.startswith("probe_")},
+        "policies": {k: v for k, v in sorted(c.items()) if k.startswith(("policy_", "granularity_", "threads_"))},
+        "scheduler_steps": c.get("probe_steps", 0),
+        "ops_executed": c.get("ops", 0),
+        "diffs_attributed_to_C08": c.get("diffs_attributed_to_history_dependence_C08", 0),
+        "state_measure": "distinct_states = distinct (from-location -> to-location) context-switch edges, location = (function, first line, bytecode offset or line)",
+        "simulated_time": "yarl reads no clock; simulated time is the scheduler step counter: %d steps" % c.get("probe_steps", 0),
+    }
+
+
+def post_C20(cov, stage_dir):
+    n = stage.gil_release_sites(stage_dir)
+    cov["compiled_quoter_gil_release_sites_in_generated_c"] = n
+
+
 SPECS = {
+    "C20": {"machine": "c20", "level": "exploration", "plan": plan_C20, "evidence": evidence_C20, "post": post_C20,
+            "assumptions": [
+                "code outside yarl's .py files (stdlib, idna, multidict, propcache, functools.lru_cache C wrapper, the compiled quoter) executes as one atomic step, which is what the GIL guarantees for the C parts",
+                "the compiled quoter never releases the GIL while its static buffer is live; the generated C is scanned for PyEval_SaveThread/Py_UNBLOCK_THREADS and the count is recorded in coverage (assumption, never a VIOLATION)",
+                "free-threaded builds are out of scope (CPython 3.12.1 has a GIL)",
+                "schedules are sampled, not enumerated",
+            ]},
     "C08": {"machine": "c08", "level": "exploration", "plan": plan_C08, "evidence": evidence_C08,
             "assumptions": [
                 "the cold reference is the same code in a pristine process: a change that is wrong for every history is invisible (relational oracle)",
